@@ -3306,3 +3306,162 @@ func ruleNilZeroArg(w *World, r *Report) {
 	r.ok("NIL-ZERO-ARG", "scope=core sys service cron crolt", "", itoa(sites)+" call arguments loaded from local variables of interface / pointer type examined")
 	_ = n
 }
+
+// CTOR-PARAM (C20, C14): a constructor does not drop what it is given.
+func ruleCtorParam(prop string) ruleFn {
+	return func(w *World, r *Report) {
+		r.Rule("CTOR-PARAM", "every parameter of an exported constructor (a package-level function New...) of core, sys and cron is used: core.NewLocation is handed the location's Control (sys passes the per-group control: MaxFacts, script timeouts, action interpreters), and a constructor that silently drops it leaves every location on the process-wide default — a group's lower capacity or shorter script timeout is never enforced.  (*Context parameters are not counted.)", 5)
+		n := 0
+		for _, fn := range w.Funcs {
+			if isTestFile(w, fn) || fn.Synthetic != "" || fn.Parent() != nil || fn.Signature.Recv() != nil {
+				continue
+			}
+			pk := w.RelPkg(fn)
+			if pk != "core" && pk != "sys" && pk != "cron" {
+				continue
+			}
+			if !strings.HasPrefix(fn.Name(), "New") || fn.Object() == nil || !fn.Object().Exported() {
+				continue
+			}
+			for _, p := range fn.Params {
+				if p.Name() == "_" || p.Name() == "" {
+					continue
+				}
+				if pt, ok := p.Type().(*types.Pointer); ok && isNamed(pt.Elem(), modPath+"/core", "Context") {
+					continue
+				}
+				n++
+				used := false
+				if refs := p.Referrers(); refs != nil {
+					for _, ref := range *refs {
+						if _, isDbg := ref.(*ssa.DebugRef); !isDbg {
+							used = true
+						}
+					}
+				}
+				key := "ctor=" + fname(fn) + " param=" + p.Name()
+				if used {
+					r.ok("CTOR-PARAM", key, w.Pos(fn.Pos()), "used")
+				} else {
+					r.violation("CTOR-PARAM", key, w.Pos(fn.Pos()), "the constructor never uses this parameter: what the caller configures through it has no effect")
+				}
+			}
+		}
+		_ = n
+	}
+}
+
+// TIME-PARSE-ARGS (C16): time.Parse(layout, value), not the other way round.
+func ruleTimeParseArgs(prop string) ruleFn {
+	return func(w *World, r *Report) {
+		r.Rule("TIME-PARSE-ARGS", "every call of time.Parse in rulio passes the layout first: a call whose first argument is not a constant while its second argument is a constant string (a layout such as time.RFC3339) has its arguments swapped — it parses the layout text with the user's value as the layout and never succeeds, so an absolute-time one-shot schedule is never recognised as one", 3)
+		n := 0
+		for _, fn := range w.Funcs {
+			if isTestFile(w, fn) || fn.Synthetic != "" {
+				continue
+			}
+			allInstrs(fn, func(in ssa.Instruction) {
+				c := callOf(in)
+				if c == nil {
+					return
+				}
+				f := c.StaticCallee()
+				if f == nil || f.Pkg == nil || f.Pkg.Pkg.Path() != "time" || f.Name() != "Parse" || len(c.Args) != 2 {
+					return
+				}
+				n++
+				key := "fn=" + fname(fn) + " call#" + itoa(n)
+				_, c0 := c.Args[0].(*ssa.Const)
+				_, c1 := c.Args[1].(*ssa.Const)
+				if !c0 && c1 {
+					r.violation("TIME-PARSE-ARGS", "fn="+fname(fn), w.PosOf(in), "time.Parse is called with the value as the layout and a constant layout as the value")
+				} else {
+					r.ok("TIME-PARSE-ARGS", key, w.PosOf(in), "layout first")
+				}
+			})
+		}
+	}
+}
+
+// CROLT-URL (C15, C16): every request of the crolt client names its operation.
+func ruleCroltURL(prop string) ruleFn {
+	return func(w *World, r *Report) {
+		r.Rule("CROLT-URL", "sibling agreement over the methods of cron.CroltSimple (the client of the persistent cron service): the URL of every HTTP request they make is built from CroltURL and a constant path segment that begins with \"/\" (\"/add\", \"/rem\"): a request without its operation segment goes to the service's root, is answered with something that is not an error, and the job that was to be removed keeps firing", 2)
+		n := w.TryNamed("cron", "CroltSimple")
+		if n == nil {
+			r.exempt("CROLT-URL", "type=cron.CroltSimple", "", "type not found: not decided")
+			return
+		}
+		newReq := w.Func("core", "NewHTTPRequest")
+		k := 0
+		for _, fn := range w.MethodsOf(n) {
+			allInstrs(fn, func(in ssa.Instruction) {
+				c := callOf(in)
+				if c == nil || c.StaticCallee() != newReq || len(c.Args) < 3 {
+					return
+				}
+				k++
+				key := "fn=" + fname(fn)
+				url := c.Args[2]
+				hasSeg := dependsOn(url, func(v ssa.Value) bool {
+					bo, ok := v.(*ssa.BinOp)
+					if !ok || bo.Op != token.ADD {
+						return false
+					}
+					for _, op := range []ssa.Value{bo.X, bo.Y} {
+						if s, ok := constString(op); ok && strings.HasPrefix(s, "/") && len(s) > 1 {
+							return true
+						}
+					}
+					return false
+				})
+				if hasSeg {
+					r.ok("CROLT-URL", key, w.PosOf(in), "the URL carries a constant operation segment")
+				} else {
+					r.violation("CROLT-URL", key, w.PosOf(in), "the request URL is built without an operation segment (its siblings append \"/add\" ...): the request does not reach the operation")
+				}
+			})
+		}
+		if k == 0 {
+			r.exempt("CROLT-URL", "type=cron.CroltSimple", w.Pos(n.Obj().Pos()), "no method builds an HTTP request with core.NewHTTPRequest: shape not recognised, not decided")
+		}
+	}
+}
+
+// AT-UTC (C16): crolt's time keys are UTC.
+func ruleAtUTC(w *World, r *Report) {
+	r.Rule("AT-UTC", "every value stored into crolt's Job.at (the instant a job is due, which is formatted into the byte-ordered time-index key and compared with a UTC `now`) derives from a time that went through .UTC() (or was parsed from the job's own expression): a due time computed from the local clock sorts wrongly against UTC keys in any zone but UTC — west of UTC a job due in an hour fires at the next poll, east of UTC a due job does not fire", 3)
+	n := 0
+	for _, fn := range w.Funcs {
+		if w.RelPkg(fn) != "crolt" || isTestFile(w, fn) {
+			continue
+		}
+		allInstrs(fn, func(in ssa.Instruction) {
+			st, ok := storesToField(in, "crolt.Job", "at")
+			if !ok {
+				return
+			}
+			n++
+			key := "fn=" + fname(fn) + " store#" + itoa(n)
+			okv := dependsOn(st.Val, func(v ssa.Value) bool {
+				c, ok := v.(*ssa.Call)
+				if !ok {
+					return false
+				}
+				f := c.Common().StaticCallee()
+				if f == nil || f.Pkg == nil || f.Pkg.Pkg.Path() != "time" {
+					return false
+				}
+				return f.Name() == "UTC" || f.Name() == "Parse"
+			})
+			if okv {
+				r.ok("AT-UTC", key, w.PosOf(in), "derives from a UTC (or parsed) time")
+			} else {
+				r.violation("AT-UTC", "fn="+fname(fn), w.PosOf(in), "the due time stored here does not go through .UTC(): in a zone other than UTC its key sorts wrongly against the UTC `now` of the work loop")
+			}
+		})
+	}
+	if n == 0 {
+		r.exempt("AT-UTC", "field=crolt.Job.at", "", "nothing stores into Job.at: shape not recognised, not decided")
+	}
+}
